@@ -22,7 +22,7 @@ CONFIG = dict(
         "Count is only called with IDs of members and CountByIdx with indexes < Len (every caller in the repository does so)",
         "weights are 32-bit values; the total of a set is the mathematical sum of its weights",
     ],
-    level_more='At a drawn point of a counting sequence the Validators object the counter came from is refilled in place by RLP decoding.',
+    level_more='At a drawn point of a counting sequence the Validators object the counter came from is refilled in place by RLP decoding. The next set may be derived from the current one before counting, and array-constructor inputs are overwritten by the caller afterwards.',
     units=[
         dict(test="TestC11Totals", kind="plain", shards=16, timeout_t=3000, gomaxprocs=1),
         dict(test="TestC11Sets", quick=40000, thorough=3200000, shards=16),
